@@ -17,6 +17,7 @@ THEOREMS = [
     "Claripy.Props.C02.round_nearest_spec", "Claripy.Props.C02.round_exact_spec", "Claripy.Props.C02.value_order_spec",
     "Claripy.Props.C02.fold_widen_all_modes", "Claripy.Props.C02.fold_cmp_float", "Claripy.Props.C02.fold_neg_abs_float",
     "Claripy.Props.C02.fold_to_ieee_bv", "Claripy.Props.C02.to_bv_spec_float", "Claripy.Props.C02.fold_narrow_rne",
+    "Claripy.Props.C02.cancel_fptobv_fptofp", "Claripy.Props.C02.cancel_fptofp_fptobv",
     "Claripy.Props.C02.fold_ignores_rm_witness", "Claripy.Props.C02.int_to_float_double_rounding_witness",
     "Claripy.Props.C02.rna_round_up_wrong",
 ]
@@ -181,6 +182,34 @@ def run(ctx):
             if li != P.canon(fmt, b):
                 ctx.violation("C02/FPV-literal/%s/%s" % (fmt, "subnormal" if (b >> (P.FMT[fmt][1] - 1)) & ((1 << P.FMT[fmt][0]) - 1) == 0 else "normal"),
                               "FPV with bits %#x reaches Z3 as %s" % (b, li), {"kind": "literal", "fmt": fmt, "bits": b})
+    # ---------------------------------------------------------------- 4b. the two cancellation rewrites (simplifications.py)
+    import claripy
+    for fmt in "FD":
+        S, W = P.sort_obj(fmt), P.WIDTH[fmt]
+        xb = claripy.BVS("c02_cb", W)
+        yf = claripy.FPS("c02_cf", S)
+        r1 = claripy.fpToIEEEBV(claripy.fpToFP(xb, S))
+        r2 = claripy.fpToFP(claripy.fpToIEEEBV(yf), S)
+        ctx.cov.setdefault("cancellation_rewrites", {})[fmt] = {"fpToIEEEBV(fpToFP(bv))": r1.op, "fpToFP(fpToIEEEBV(fp))": r2.op}
+        z3 = z.z3
+        for b in P.boundary_bits(fmt) + [P.rand_bits(ctx.rng, fmt) for _ in range(ctx.pick(50, 500))]:
+            ctx.count()
+            # what the rewritten ASTs denote at this point vs what SMT-LIB says about the original terms
+            s = claripy.SolverCacheless()
+            s.add(xb == claripy.BVV(b, W))
+            got1 = s.eval(r1, 1)[0]
+            want1 = z.value(z3.fpToIEEEBV(z3.fpBVToFP(z3.BitVecVal(b, W, z.ctx), z.sort(fmt))))
+            if not P.is_nan_bits(fmt, b) and ("bv", W, got1) != want1:
+                ctx.violation("C02/fptobv_simplifier/%s/non-nan" % fmt, "fpToIEEEBV(fpToFP(%#x)) is built as %s = %#x, SMT-LIB gives %s" % (b, r1.op, got1, want1),
+                              {"kind": "cancel", "rule": 1, "fmt": fmt, "bits": b})
+            s = claripy.SolverCacheless()
+            s.add(yf.raw_to_bv() == claripy.BVV(b, W)) if not P.is_nan_bits(fmt, b) else s.add(claripy.fpIsNaN(yf))
+            ok = s.satisfiable(extra_constraints=[claripy.fpIsNaN(r2)]) if P.is_nan_bits(fmt, b) else \
+                s.eval(r2.raw_to_bv(), 1)[0] == b
+            if not ok:
+                ctx.violation("C02/fptofp_simplifier/%s/%s" % (fmt, "nan" if P.is_nan_bits(fmt, b) else "non-nan"),
+                              "fpToFP(fpToIEEEBV(y)) with y = %#x is built as %s and does not denote y" % (b, r2.op),
+                              {"kind": "cancel", "rule": 2, "fmt": fmt, "bits": b})
     # ---------------------------------------------------------------- 5. symbolic side end to end (sample)
     n = ctx.pick(60, 600)
     ar = [c for c in cases if c[0] in P.OPS_ARITH + ("fpSqrt", "fpToFP_fp", "fpToSBV")]
@@ -238,6 +267,16 @@ def e2e(z, op, fmt, rm, a):
 def replay(ctx, obj):
     r = obj["replay"]
     z = P.ZF()
+    if r["kind"] == "cancel":
+        import claripy
+        fmt, b = r["fmt"], r["bits"]
+        S, W = P.sort_obj(fmt), P.WIDTH[fmt]
+        xb = claripy.BVS("c02_cb", W)
+        e = claripy.fpToIEEEBV(claripy.fpToFP(xb, S)) if r["rule"] == 1 else claripy.fpToFP(claripy.fpToIEEEBV(xb.raw_to_fp()), S).raw_to_bv()
+        s = claripy.SolverCacheless(); s.add(xb == claripy.BVV(b, W))
+        got = s.eval(e, 1)[0]
+        print("rule %d on bits %#x -> %#x" % (r["rule"], b, got))
+        return 0 if got == b or P.is_nan_bits(fmt, b) else 1
     if r["kind"] == "literal":
         li = z.literal_in(r["fmt"], r["bits"])
         print("FPV bits %#x reaches Z3 as %s" % (r["bits"], li))
